@@ -142,6 +142,8 @@ let rec parse_op2 name (args : arg list) : op2 =
   | "len", [] -> OLen
   | "contains", [u] -> OContains (a_z u)
   | "shutdown", [] -> OShutdown
+  | "to_nx", [r] -> OToNx (a_list a_z r)
+  | "to_dot", [r] -> OToDot (a_opt (a_list a_z) r)
   | _ -> O1 (parse_op name args)
 
 and parse_op name (args : arg list) : op =
@@ -188,8 +190,63 @@ and parse_op name (args : arg list) : op =
   | "is_essential", [u; v] -> OIsEssential (a_z u, a_nat v)
   | _ -> failwith ("unknown operation or wrong arity: " ^ name)
 
+(* ---- dd.autoref operations (manager ids written a0, a1, ...) ---- *)
+let parse_aop name (args : arg list) : aop =
+  let nn = a_pair a_nat a_nat in
+  let nb = a_pair a_nat a_bool in
+  match name, args with
+  | "new", [l] -> ANew (a_list nn l)
+  | "declare", [l] -> ADeclare (a_list a_nat l)
+  | "var", [v] -> AVar (a_nat v)
+  | "true", [] -> ATrue
+  | "false", [] -> AFalse
+  | "apply", [A o; u; v; w] ->
+      AApply (cstring_of_string o, a_nat u, a_opt a_nat v, a_opt a_nat w)
+  | "ite", [g; u; v] -> AIte (a_nat g, a_nat u, a_nat v)
+  | "let_bool", [d; u] -> ALet (ALetBool (a_list nb d), a_nat u)
+  | "let_ref", [d; u] -> ALet (ALetRef (a_list nn d), a_nat u)
+  | "let_name", [d; u] -> ALet (ALetName (a_list nn d), a_nat u)
+  | "quantify", [u; q; fa] -> AQuantify (a_nat u, a_list a_nat q, a_bool fa)
+  | "cube", [d] -> ACube (a_list nb d)
+  | "find_or_add", [v; lo; hi] -> AFindOrAdd (a_nat v, a_nat lo, a_nat hi)
+  | "support", [u] -> ASupport (a_nat u)
+  | "count", [u; n] -> ACount (a_nat u, a_opt a_nat n)
+  | "image", [t; s; rn; q; fa] ->
+      AImage (false, a_nat t, a_nat s, a_list nn rn, a_list a_nat q, a_bool fa)
+  | "preimage", [t; s; rn; q; fa] ->
+      AImage (true, a_nat t, a_nat s, a_list nn rn, a_list a_nat q, a_bool fa)
+  | "fapply", [A o; u; v] -> AFApply (cstring_of_string o, a_nat u, a_opt a_nat v)
+  | "eq", [u; v] -> AEq (a_nat u, a_nat v)
+  | "ne", [u; v] -> ANe (a_nat u, a_nat v)
+  | "le", [u; v] -> ALe (a_nat u, a_nat v)
+  | "lt", [u; v] -> ALt (a_nat u, a_nat v)
+  | "low", [u] -> AChild (false, a_nat u)
+  | "high", [u] -> AChild (true, a_nat u)
+  | "succ", [u] -> ASucc (a_nat u)
+  | "level", [u] -> ALevel (a_nat u)
+  | "varof", [u] -> AVarOf (a_nat u)
+  | "ref", [u] -> ARef (a_nat u)
+  | "negated", [u] -> ANegated (a_nat u)
+  | "len", [u] -> ALen (a_nat u)
+  | "int", [u] -> AInt (a_nat u)
+  | "drop", [u] -> ADrop (a_nat u)
+  | "gc", [] -> AGc
+  | "reorder", [o] -> AReorder (a_opt (a_list nn) o)
+  | "configure", [b] -> AConfigure (a_opt a_bool b)
+  | "set_last_len", [l] -> ASetLastLen (a_opt a_nat l)
+  | "set_trig", [k] -> ASetTrig (a_opt a_nat k)
+  | "tape", [t] -> ATape (a_list (a_list a_pos) t)
+  | "copy", [src; u] -> ACopy (a_nat src, a_nat u)
+  | "shutdown", [] -> AShutdown
+  | _ -> failwith ("unknown autoref operation or wrong arity: " ^ name)
+
+let show_adigest (d, hs) =
+  let hs = List.map (fun (h, u) -> (int_of_nat h, int_of_z u)) hs in
+  show_digest d ^ " handles=" ^ show_dict (fun (h, u) -> Printf.sprintf "%d:%d" h u) hs
+
 let () =
   let world = Stdlib.ref world_empty in
+  let aworld = Stdlib.ref aworld_empty in
   let full = Stdlib.ref true in
   (try
      while true do
@@ -199,12 +256,28 @@ let () =
        match toks with
        | [] -> ()
        | "#" :: _ -> ()
-       | ["!reset"] -> world := world_empty
+       | ["!reset"] -> world := world_empty; aworld := aworld_empty
        | ["!mode"; "full"] -> full := true
        | ["!mode"; "result"] -> full := false
+       | ["!digest"; m] when String.length m > 1 && m.[0] = 'a' ->
+           let m = nat_of_int (int_of_string (String.sub m 1 (String.length m - 1))) in
+           print_endline ("digest\t" ^ show_adigest (adigest (aworld_get !aworld m)))
        | ["!digest"; m] ->
            let m = nat_of_int (int_of_string m) in
            print_endline ("digest\t" ^ show_digest (digest (world_get !world m)))
+       | m :: name :: args when String.length m > 1 && m.[0] = 'a' ->
+           let m = nat_of_int (int_of_string (String.sub m 1 (String.length m - 1))) in
+           let o = parse_aop name (List.map parse_arg args) in
+           let (w', r) = astep !aworld m o in
+           let r = match name, r with
+             | "support", Ok (VL l) ->
+                 let key = function VN n -> int_of_nat n | _ -> 0 in
+                 Ok (VL (List.sort (fun a b -> Stdlib.compare (key a) (key b)) l))
+             | _ -> r in
+           aworld := w';
+           if !full then
+             print_endline (show_res r ^ "\t" ^ show_adigest (adigest (aworld_get w' m)))
+           else print_endline (show_res r)
        | m :: name :: args ->
            let m = nat_of_int (int_of_string m) in
            let o = parse_op2 name (List.map parse_arg args) in
@@ -214,6 +287,13 @@ let () =
            let r = match name, r with
              | "pick_iter", Ok (VL l) ->
                  Ok (VL (List.sort (fun a b -> Stdlib.compare (show_value a) (show_value b)) l))
+             | ("to_nx" | "to_dot"), Ok (VL parts) ->
+                 (* graphs are compared as sets of nodes/edges *)
+                 let norm = function
+                   | VL l -> VL (List.sort_uniq
+                                   (fun a b -> Stdlib.compare (show_value a) (show_value b)) l)
+                   | v -> v in
+                 Ok (VL (List.map norm parts))
              | ("support" | "undeclare" | "descendants"), Ok (VL l) ->
                  (* Python sets: compared as sorted lists *)
                  let key = function VN n -> int_of_nat n | VZ z -> int_of_z z | _ -> 0 in
